@@ -11,9 +11,9 @@ TRUSTED = [
     "word abstraction: Python's signed key words are carried as naturals mod 2^32 (all observations are (w >> s) & 0xFF)",
 ]
 ASSUMPTIONS = [
-    "enc_eq_fips / fips_inv (model AES = FIPS-197 cipher for every key and block, decryption inverts encryption) are NOT yet "
-    "theorems: the table theorems are proved, the round structure is tied to an independent byte-oriented FIPS-197 "
-    "implementation by differential testing only (partial)",
+    "Spec/Fips197.lean is this check's reading of FIPS-197 (validated against Appendix C.1-C.3 by kernel evaluation and against "
+    "the independent byte-oriented implementation refaes.py through the correspondence); the model carries key words as "
+    "naturals mod 2^32 (Python's signed words differ only in bits that are masked away)",
 ]
 LEANCHECKER_MODULES = ["Bec2Verif.Props.C16"]
 
